@@ -292,6 +292,10 @@ func genC19(cw *caseWriter, seed uint64, tier string) {
 			yamlRun, jlForcedYamlRun = jlForcedYamlRun, ""
 		}
 		inlineRun := runJl(noYml, append([]string{"-t", inlineOf(cols)}, extra...), stdin)
+		// the definition file that -t replaces: another column list, or a file that holds no column list at all (empty,
+		// a comment, a bare key, a document marker): whatever it is, -t replaces it entirely
+		otherContents := []string{"columns:\n  - name: \"zzz\"\n    output: \"numeric\"\n  - name: \"a\"\n    output: \"hidden\"\n", "", "# nothing declared here\n", "columns:\n", "---\n", "\n\n"}
+		os.WriteFile(filepath.Join(otherYml, "row.yml"), []byte(otherContents[i%len(otherContents)]), 0o644)
 		overRun := runJl(otherYml, append([]string{"-t", inlineOf(cols)}, extra...), stdin)
 		jlExtraEnv = nil
 		// library
@@ -311,6 +315,16 @@ func genC19(cw *caseWriter, seed uint64, tier string) {
 		}
 		cw.count("jl:" + strings.SplitN(yamlRun, " ", 2)[0])
 		cw.emit("jl "+jlDefsStr(cols)+" "+string(stdin), true, "jl", "C19", jlDefsStr(cols), hxs(string(stdin)), extStr(ext), yamlRun, inlineRun, overRun, libRun)
+	}
+	// an input that ENDS ON A FAILURE rather than at its end — an unreadable standard input, a line over the limit —
+	// through the command: the library's streamer reports such an end (C08); the command must not turn it into
+	// silence and exit status 0
+	if localIsUTC() {
+		fcols := []colDesc{{name: "a", format: "numeric", ty: "none"}}
+		emitStreamJl(cw, "C19", fcols, fcols, nil, true)
+		emitStreamJl(cw, "C19", nil, nil, nil, true)
+		big := bytes.Repeat([]byte("x"), 10485760)
+		emitStreamJl(cw, "C19", nil, nil, append(append([]byte("{\"a\":1}\n"), big...), []byte("\n{\"a\":2}\n")...), false)
 	}
 	// malformed templates: exit non-zero, no data
 	stdin := []byte("{\"a\":1}\n")
